@@ -41,8 +41,8 @@ RULE = (
     " field sorts from name/annotation (four-momentum array, 3-vector, event count, angular"
     " momentum, scalar, non-SymPy attribute), alphabet per sort {plain symbol, symbol with"
     " assumptions, positive rational, compound expression, nested @unevaluated instances"
-    " (quick: 3 representatives of the sort, 1 level; thorough: every class of the sort, 2"
-    " levels for the representatives)}, angular momentum {1, 0, 2, symbol, integer symbol,"
+    " (quick: 3 representatives of the sort, 1 level; thorough: every class of the sort whose"
+    " unfolded form has <= 20 operations, 2 levels for the representatives)}, angular momentum {1, 0, 2, symbol, integer symbol,"
     " symbol+1}, non-SymPy attributes {every phase-space callable found in the package, None,"
     " name strings}; full product of the alphabets if <= 60 (thorough 500) shapes, else base +"
     " all one-field variations + diagonals + two-field variations over nested values +"
@@ -72,8 +72,9 @@ ASSUMPTIONS = [
     " off/on and with an evaluation that does not use the NumPy printer (evalf) or, for array"
     " classes, with event-by-event evaluation; cse=True is skipped for expressions with bound"
     " variables (sympy's cse extracts sub-expressions of Integral/Sum that contain them)",
-    "NumPy code is evaluated on complex-valued input; a disagreement that disappears on"
-    " real-valued input (signed zero on a branch cut) is recorded as an outcome, not a violation",
+    "NumPy code is evaluated on complex-valued input with zero imaginary part; a disagreement"
+    " that disappears on real-valued input or at a generic complex point off the real axis"
+    " (signed zeros on a branch cut) is recorded as an outcome, not a violation",
     "points at which both sides are NaN are skipped and never counted as agreement",
     "a phsp_factor attribute of None is constructed, compared, rebuilt (laws 2, 3) but not"
     " unfolded (the attribute must be callable)",
@@ -278,7 +279,7 @@ class Recorder:
 
     def result(self) -> dict:
         return {"violations": self.viol, "evaluations": self.n_eval, "nontrivial": self.nontrivial,
-                "outcomes": self.outcomes, "counters": self.counters,
+                "outcomes": self.outcomes, "counters": self.counters, "caps": getattr(self, "caps", []),
                 **({"sample": self.sample} if self.sample is not None else {})}
 
 
@@ -408,11 +409,11 @@ def check_law4(rec: Recorder, e, ed, info, desc, seed: int, known: bool) -> None
     if limits:
         rec.out("law4:cse-skipped(bound-variables)")
 
-    def evaluate(real_input: bool) -> dict:
+    def evaluate(real_input: bool, off_axis: bool = False) -> dict:
         out = {}
         for form, expr in forms.items():
             for cse in modes:
-                out[form, cse] = R.np_values([expr], seed, cse=cse, real_input=real_input)
+                out[form, cse] = R.np_values([expr], seed, cse=cse, real_input=real_input, off_axis=off_axis)
                 rec.n_eval += 1
         return out
 
@@ -443,10 +444,19 @@ def check_law4(rec: Recorder, e, ed, info, desc, seed: int, known: bool) -> None
         else:
             verdict_real = "differ"
         if verdict_real == "differ":
-            shown = {f"{k[0]},cse={k[1]}": _short(vals[k][1][0], 90) for k in keys}
-            rec.bad("4", f"generated code disagrees between forms / cse modes: {shown}", desc, known, ["values"])
-            return
-        rec.out(f"law4:{label}:on-real-input-only(branch-cut)")
+            # real input can still meet a cut through the complex constants of a Piecewise
+            # branch (i sqrt(-x)); a generic complex point is on no cut at all
+            generic = evaluate(False, off_axis=True)
+            verdict_generic = "differ"
+            if all(v[0] == "ok" for v in generic.values()):
+                verdict_generic = _all_close([generic[k][1][0] for k in keys])
+            if verdict_generic != "equal":
+                shown = {f"{k[0]},cse={k[1]}": _short(vals[k][1][0], 90) for k in keys}
+                rec.bad("4", f"generated code disagrees between forms / cse modes: {shown}", desc, known, ["values"])
+                return
+            rec.out(f"law4:{label}:off-the-real-axis-only(branch-cut)")
+        else:
+            rec.out(f"law4:{label}:on-real-input-only(branch-cut)")
     elif verdict == "undefined":
         rec.out("law4:all-nan")
         return
@@ -606,11 +616,35 @@ def check_shape(rec: Recorder, desc, tier: str, seed: int, is_base: bool = False
                               "substituted_then_unfolded": _short(lhs, 240)}
 
 
+class TimeLimit(BaseException):
+    """Raised by the watchdog; a BaseException so that no guard swallows it."""
+
+
+SHAPE_TIME_LIMIT = {"quick": 150, "thorough": 300}
+
+
+def _alarm(signum, frame):  # noqa: ARG001
+    raise TimeLimit
+
+
 def eval_laws(case) -> dict:
+    import signal  # noqa: PLC0415
+
     info = R.info(case["cls"])
     rec = Recorder(info.name)
+    caps = []
     for k, desc in enumerate(case["shapes"]):
-        check_shape(rec, desc, case["tier"], case.get("seed", 0), is_base=(case.get("first", 0) + k == 0))
+        old = signal.signal(signal.SIGALRM, _alarm)
+        signal.alarm(SHAPE_TIME_LIMIT[case["tier"]])
+        try:
+            check_shape(rec, desc, case["tier"], case.get("seed", 0), is_base=(case.get("first", 0) + k == 0))
+        except TimeLimit:
+            rec.out("time-limit:shape-abandoned")
+            caps.append(f"time limit ({SHAPE_TIME_LIMIT[case['tier']]} s) hit for a shape of {info.name}")
+        finally:
+            signal.alarm(0)
+            signal.signal(signal.SIGALRM, old)
+    rec.caps = caps
     if case.get("first", 0) != 0 and not (rec.sample or {}).get("map"):
         rec.sample = None
     elif rec.sample is None and case["shapes"]:
